@@ -29,7 +29,7 @@ TRUSTED_BASE = [
     'translator tools/py2coq.py + tools/gen.py (fail-closed symbolic interpreter of the Python AST); validated each run (a) by evaluating the generated `prog` terms INSIDE Coq (theories/FloatEval.v: generic list evaluator proved equal to the model semantics Expr.eval/run on the reals, run on PrimFloat by vm_compute) on the data of live objects and comparing every output binding and oracle residual equation with the implementation to 1e-9 relative, and (b) by an independent parse-back evaluation of the generated Coq text with numpy',
     'real arithmetic stands for float arithmetic; np.matmul(d_d_varphi, .) is modelled as (D_phi .)/d_varphi_d_phi',
     'committed tables/*.json (dimension / sign of each public attribute)',
-    'the real-analysis files theories/SpectralConv.v (C18), theories/NewtonConv.v (C20), props/C12_firstzero.v and props/C12_bridge.v (C12) import Coquelicot and the standard library\'s continuity_ab_min / MVT and therefore also depend on the standard-library axiom Classical_Prop.classic (excluded middle); no other obligation does',
+    'the real-analysis files theories/SpectralConv.v (C18), theories/SecondOrder.v (C03, C18), theories/NewtonConv.v (C20), props/C12_firstzero.v and props/C12_bridge.v (C12) import Coquelicot and the standard library\'s continuity_ab_min / MVT and therefore also depend on the standard-library axiom Classical_Prop.classic (excluded middle); no other obligation does',
     'checks whose obligations include theories/FloatOrder.v (C02, C12, C20) additionally rely on the standard library\'s specification axioms of primitive floats (Coq.Floats.FloatAxioms: ltb_spec, leb_spec, eqb_spec; in its RealSemantics module also abs_spec, Prim2SF_valid, SF2Prim_Prim2SF, Prim2SF_SF2Prim and, through Flocq/Reals, Classical_Prop.classic); the evidence field `axioms` lists what Print Assumptions reported',
 ]
 
@@ -407,10 +407,11 @@ def check_C03(tier, seed):
                       'with positive phi-component, curvature >= 0, X1c = etabar/curvature, G0 = sG*B0*L/(2 pi), d_varphi_d_phi proportional to d_l_d_phi; in the CONTINUUM model '
                       '(d/dphi a derivation, jets consistent, rotating cylindrical basis) all three Frenet-Serret equations with the code\'s curvature and torsion; on the discrete grid '
                       '(every n) varphi[0] = 0, strictly increasing, closing one field period, from the recorded trapezoid recurrence; elongation^2 = s1^2/s2^2 (singular values) and >= 1. '
-                      'Hypotheses: R0 > 0, non-vanishing curvature, the harmonic sums R0.. are the derivatives of each other (jets_consistent; term-by-term check by the harness). '
-                      'NOT proved: quadrature error rate; min_R0 / max_elongation (spectral-minimum oracle).',
-                      gprops=False, seq_obligations=['props/C03_spec.v', 'props/C03.v', 'props/Pipeline_qsc.v', 'props/Axis.v'], ncorr=(8 if tier == 'quick' else 48),
-                      theorems=['C03_T1', 'C03_frenet_serret', 'C03_T3', 'C03_varphi', 'C03_elongation_h0', 'C03_elongation_hN'])
+                      'Hypotheses: R0 > 0, non-vanishing curvature, the harmonic sums R0.. are the derivatives of each other (jets_consistent: proved term by term and for the finite sums in props/Axis.v, axis_sums_are_derivatives). '
+                      'Quadrature (theories/SecondOrder.v): the cumulative trapezoid recurrence by which varphi is built differs from the integral of the arclength element by at most (phi_j - phi_0) M h^2 / 12 at every grid point, M a bound of the second derivative of the integrand (cumulative_trapezoid_uniform; sharp) -- the property\'s "up to second-order quadrature error". '
+                      'NOT proved: min_R0 / max_elongation (spectral-minimum oracle: Brent spec).',
+                      gprops=False, seq_obligations=['props/C03_spec.v', 'props/C03.v', 'props/Pipeline_qsc.v', 'props/Axis.v'], theory_obligations=['SecondOrder'], ncorr=(8 if tier == 'quick' else 48),
+                      theorems=['C03_T1', 'C03_frenet_serret', 'C03_T3', 'C03_varphi', 'C03_elongation_h0', 'C03_elongation_hN', 'Axis.axis_sums_are_derivatives', 'SecondOrder.trapezoid_panel', 'SecondOrder.cumulative_trapezoid_uniform'])
 
 
 def check_C17(tier, seed):
@@ -506,7 +507,7 @@ def check_C15(tier, seed):
                       'NTOR header = min(ntor, ntorMax) equals ntor iff ntor <= ntorMax. '
                       'Everything else is translation-validation level: the written file is parsed back with an independent namelist reader and compared with the object and the surface on every run '
                       '(NFP, LASYM, MPOL, NTOR cap, mode lines with VMEC\'s m*theta - n*nfp*phi convention, axis arrays to 8 digits, coefficient arrays left on the object, no state leaking through the mutable default argument).',
-                      gprops=False, seq_obligations=[['props/C15.v', 'props/C07_lasym.v'], 'props/C14_fourier.v', 'props/C15_file.v'], theory_obligations=['VmecEmit', 'TrigSum'],
+                      gprops=False, seq_obligations=[['props/C15.v', 'props/C07_lasym.v', 'props/C15_axis.v'], 'props/C14_fourier.v', 'props/C15_file.v'], theory_obligations=['VmecEmit', 'TrigSum'],
                       extra_harness=[('tie_vmec', []), ('tie_fourier', [])], nthorough=120,
                       theorems=['C15_phiedge', 'C15_curtor', 'C15_pressure', 'C15_file.C15_file_surface_sym', 'C15_file.C15_file_surface_asym', 'C15_file.C15_file_ranges',
                                 'C15_file.C15_default_ranges', 'C15_file.C15_ntor_header', 'VmecEmit.read_RBC', 'VmecEmit.read_ZBS', 'VmecEmit.read_RBS', 'VmecEmit.read_ZBC',
@@ -522,10 +523,10 @@ def check_C18(tier, seed):
                       'on an n-point grid mode k is sampled as mode fold(n,k) <= n/2 (aliasing_identity); the spectral derivative differs from the true derivative at every node by at most |s| * sum_{k > n/2} (k + n/2)(|a_k| + |b_k|) '
                       '(Dspec_aliasing_bound; sharp, attained by sin 2x on 3 points), the interpolant from the function at every real x by at most 2 * sum_{k > n/2} (|a_k| + |b_k|) (kinterp_aliasing_bound, attained), and the periodic trapezoid sum '
                       'equals L*(a_0 + a_n + a_2n + ...) -- exactly the integral (is_RInt) when K < n (trapezoid_rule, trapezoid_exact_RInt); resolved to eps at n0 implies within eps at every larger odd n (Dspec_resolved_onwards, '
-                      'kinterp_resolved_onwards), and a band-limited profile gives an eventually constant sequence (band_limited_exact). Even-n variants included. The four RInt statements use Classical_Prop.classic through Coquelicot.',
-                      gprops=False, extra_obligations=['gprops/C16_layout.v'], seq_obligations=[['props/C18.v', 'props/C18_extrema.v']], theory_obligations=['TrigSum', 'DiffKernel', 'InterpKernel', 'SpectralConv'],
+                      'kinterp_resolved_onwards), and a band-limited profile gives an eventually constant sequence (band_limited_exact). Even-n variants included. The four RInt statements use Classical_Prop.classic through Coquelicot. Second order (theories/SecondOrder.v, for any twice differentiable profile with |f\'\'| <= M): the extremum over the grid points differs from the true extremum by at most M h^2 / 8 (grid_max_second_order, grid_min_second_order; sharp), and the cumulative trapezoid sum -- the recurrence by which init_axis builds the Boozer angle, pinned as source text -- differs from the integral by at most (x_j - a) M h^2 / 12 at EVERY grid point, uniform and non-uniform abscissae (cumulative_trapezoid_uniform, cumulative_trapezoid_nonuniform; single panel: trapezoid_panel, sharp).',
+                      gprops=False, extra_obligations=['gprops/C16_layout.v'], seq_obligations=[['props/C18.v', 'props/C18_extrema.v']], theory_obligations=['TrigSum', 'DiffKernel', 'InterpKernel', 'SpectralConv', 'SecondOrder'],
                       pre_cmds=[[PY, os.path.join(HERE, 'gen_obj.py'), '--repo', REPO]], nthorough=60,
-                      theorems=['C18_even_is_next_odd', 'C18_always_odd', 'C18_same_object', 'C18_extrema.min_R0_on_interpolant', 'C18_extrema.max_elongation_on_interpolant_h0', 'C18_extrema.min_L_grad_B_on_interpolant', 'C18_extrema.B20_variation_on_grid_h0', 'C18_extrema.inverse_scale_length_on_grid', 'SpectralConv.aliasing_identity', 'SpectralConv.Dspec_aliasing_bound', 'SpectralConv.Dspec_resolved_onwards', 'SpectralConv.kinterp_aliasing_bound', 'SpectralConv.interp_aliasing_bound', 'SpectralConv.trapezoid_rule', 'SpectralConv.trapezoid_exact_RInt', 'SpectralConv.band_limited_exact', 'DiffKernel.Dspec_exact_trigpoly', 'InterpKernel.interp_exact_trigpoly'])
+                      theorems=['C18_even_is_next_odd', 'C18_always_odd', 'C18_same_object', 'C18_extrema.min_R0_on_interpolant', 'C18_extrema.max_elongation_on_interpolant_h0', 'C18_extrema.min_L_grad_B_on_interpolant', 'C18_extrema.B20_variation_on_grid_h0', 'C18_extrema.inverse_scale_length_on_grid', 'SpectralConv.aliasing_identity', 'SpectralConv.Dspec_aliasing_bound', 'SpectralConv.Dspec_resolved_onwards', 'SpectralConv.kinterp_aliasing_bound', 'SpectralConv.interp_aliasing_bound', 'SpectralConv.trapezoid_rule', 'SpectralConv.trapezoid_exact_RInt', 'SpectralConv.band_limited_exact', 'SecondOrder.grid_max_second_order', 'SecondOrder.grid_min_second_order', 'SecondOrder.trapezoid_panel', 'SecondOrder.cumulative_trapezoid_uniform', 'SecondOrder.cumulative_trapezoid_nonuniform', 'DiffKernel.Dspec_exact_trigpoly', 'InterpKernel.interp_exact_trigpoly'])
 
 
 def check_C01(tier, seed):
@@ -566,7 +567,7 @@ C01_SEQ = ['props/C04_spec.v', 'props/C01_spec.v', 'props/C01_common.v', ['props
 
 # constructor and mutators of the object: every property quantifies over objects built (and, through the history-built inputs of the oracles, changed) through them
 OBJECT_PINS = ['qsc_init', 'qsc_calculate', 'qsc_set_dofs', 'qsc_change_nfourier', 'qsc_get_dofs']
-CLASSIC_USERS = {'theories/SpectralConv.v', 'theories/NewtonConv.v', 'props/C12_firstzero.v', 'props/C12_bridge.v'}
+CLASSIC_USERS = {'theories/SpectralConv.v', 'theories/NewtonConv.v', 'theories/SecondOrder.v', 'props/C12_firstzero.v', 'props/C12_bridge.v'}
 # hand-modelled functions (tools/gen_pins.py) whose models carry theorems or oracle assumptions of each property
 PINS_FOR = {
     'C02': ['newton', 'determine_helicity'], 'C20': ['newton', 'spectral_diff_matrix', 'fourier_interpolation', 'fourier_minimum'],
@@ -580,7 +581,7 @@ NO_FLOAT_TIE = {'C16', 'C17', 'C20'}
 # hand-written theories each check depends on (others are not built, so work in progress elsewhere cannot disturb it)
 NEEDS = {
     'C08': ['Expr', 'Equiv', 'Dim'], 'C07': ['Expr', 'Equiv', 'Sign', 'Shift', 'Shallow', 'DiffMat'], 'C05': ['Expr', 'Equiv', 'Sign', 'Shift', 'Shallow', 'DiffMat'],
-    'C04': ['Expr', 'Shallow', 'Series'], 'C11': ['Expr', 'Shallow', 'Series'], 'C13': ['Expr', 'Shallow', 'Quadrant', 'Winding'], 'C19': ['Expr', 'Equiv', 'Dim', 'Sign'], 'C17': ['Expr', 'Effects'], 'C12': ['Expr', 'Equiv', 'Dim', 'Sign', 'Shallow', 'RootSelect', 'Series', 'Newton', 'Bracket', 'FloatOrder'], 'C16': ['Expr', 'Effects', 'ObjModel'], 'C09': ['Expr', 'Shallow', 'Pipeline'], 'C03': ['Expr', 'Shallow', 'Pipeline'], 'C06': ['Expr', 'Equiv', 'Sign', 'Shift', 'Replicate', 'DiffMat', 'TrigSum', 'DiffKernel', 'Bracket', 'InterpKernel'], 'C14': ['Expr', 'Shallow', 'TrigSum'], 'C15': ['Expr', 'Shallow', 'TrigSum', 'VmecEmit'], 'C18': ['Expr', 'Shallow', 'ObjModel', 'Equiv', 'Sign', 'Shift', 'Replicate', 'DiffMat', 'Bracket', 'TrigSum', 'DiffKernel', 'InterpKernel', 'EvenKernel', 'SpectralConv'], 'C10': ['Expr', 'Shallow'], 'C01': ['Expr', 'Shallow', 'Series'], 'C02': ['Expr', 'Shallow', 'Series', 'Newton', 'RootSelect', 'Bracket', 'FloatOrder'],
+    'C04': ['Expr', 'Shallow', 'Series'], 'C11': ['Expr', 'Shallow', 'Series'], 'C13': ['Expr', 'Shallow', 'Quadrant', 'Winding'], 'C19': ['Expr', 'Equiv', 'Dim', 'Sign'], 'C17': ['Expr', 'Effects'], 'C12': ['Expr', 'Equiv', 'Dim', 'Sign', 'Shallow', 'RootSelect', 'Series', 'Newton', 'Bracket', 'FloatOrder'], 'C16': ['Expr', 'Effects', 'ObjModel'], 'C09': ['Expr', 'Shallow', 'Pipeline'], 'C03': ['Expr', 'Shallow', 'Pipeline', 'SecondOrder'], 'C06': ['Expr', 'Equiv', 'Sign', 'Shift', 'Replicate', 'DiffMat', 'TrigSum', 'DiffKernel', 'Bracket', 'InterpKernel'], 'C14': ['Expr', 'Shallow', 'TrigSum'], 'C15': ['Expr', 'Shallow', 'TrigSum', 'VmecEmit'], 'C18': ['Expr', 'Shallow', 'ObjModel', 'Equiv', 'Sign', 'Shift', 'Replicate', 'DiffMat', 'Bracket', 'TrigSum', 'DiffKernel', 'InterpKernel', 'EvenKernel', 'SpectralConv', 'SecondOrder'], 'C10': ['Expr', 'Shallow'], 'C01': ['Expr', 'Shallow', 'Series'], 'C02': ['Expr', 'Shallow', 'Series', 'Newton', 'RootSelect', 'Bracket', 'FloatOrder'],
     'C20': ['Expr', 'Equiv', 'Sign', 'Shift', 'Replicate', 'DiffMat', 'Newton', 'Bracket', 'RootSelect', 'TrigSum', 'DiffKernel', 'InterpKernel', 'EvenKernel', 'FloatOrder', 'NewtonConv'],
 }
 CHECKS = {'C01': check_C01, 'C10': check_C10, 'C06': check_C06, 'C14': check_C14, 'C15': check_C15, 'C18': check_C18, 'C12': check_C12, 'C16': check_C16, 'C17': check_C17, 'C03': check_C03, 'C19': check_C19, 'C09': check_C09, 'C13': check_C13, 'C11': check_C11, 'C02': check_C02, 'C20': check_C20, 'C04': check_C04, 'C08': check_C08, 'C07': check_C07, 'C05': check_C05}
